@@ -21,7 +21,7 @@ def main():
     subprocess.run('git checkout -q -- . && git clean -fdq && git checkout -q --detach %s' % head, shell=True, cwd=WT, check=True)
     res = json.load(open(OUT)) if os.path.exists(OUT) else {}
     unconfirmed = set()
-    for inc, sfx in (('_incoming', ''), ('_incoming2', '#2'), ('_incoming3', '#3'), ('_incoming4', '#4'), ('_incoming5', '#5'), ('_incoming6', '#6')):
+    for inc, sfx in (('_incoming', ''), ('_incoming2', '#2'), ('_incoming3', '#3'), ('_incoming4', '#4'), ('_incoming5', '#5'), ('_incoming6', '#6'), ('_incoming7', '#7')):
         vf = os.path.join(HERE, 'seeded', inc, 'validation.json')
         if os.path.exists(vf):
             unconfirmed |= {k + sfx for k, v in json.load(open(vf)).items() if not v.get('confirmed')}
@@ -36,7 +36,7 @@ def main():
         key = ('/'.join(p.split('/')[-3:-1]) + (lambda m: '#' + m.group(1) if m else '')(re.search(r'_incoming(\d+)/', p))) if p.endswith('patch.diff') else os.path.basename(p)[:-5]
         if only and not any(o in key for o in only):
             continue
-        if key in res and not only:
+        if key in res and (not only or os.environ.get('MATRIX_REDO') == '0'):
             continue
         if key in unconfirmed:
             continue          # e.g. a seeded change that a later fix commit made harmless
@@ -45,15 +45,17 @@ def main():
         if a.returncode != 0:
             res[key] = {'error': 'patch does not apply: ' + a.stderr[-200:]}
             continue
-        r = subprocess.run([os.path.join(HERE, 'tools', 'run_all.sh')], cwd=HERE, env=env, capture_output=True, text=True)
-        row = {}
+        # MATRIX_OWN=1: only the check of the change's own property (a screening row, marked _own_check_only)
+        own_only = bool(os.environ.get('MATRIX_OWN')) and p.endswith('patch.diff')
+        r = subprocess.run([os.path.join(HERE, 'tools', 'run_all.sh')] + ([key.split('/')[0]] if own_only else []), cwd=HERE, env=env, capture_output=True, text=True)
+        row = {'_own_check_only': True} if own_only else {}
         for l in r.stdout.splitlines():
             m = re.match(r'^(C\d+) rc=(\d+) violations=(\d+) errors=(\d+)\s*(.*)$', l)
             if m:
                 row[m.group(1)] = {'rc': int(m.group(2)), 'violations': int(m.group(3)), 'errors': int(m.group(4)), 'rules': m.group(5).strip()}
         row['_at'] = {'verif': VERIF_COMMIT, 'repo': head[:7]}
         res[key] = row
-        caught = [c for c, v in row.items() if not c.startswith('_') and v['rc'] == 1]
+        caught = [c for c, v in row.items() if not c.startswith('_') and isinstance(v, dict) and v['rc'] == 1]
         print(key, 'caught by', caught, flush=True)
         json.dump(res, open(OUT, 'w'), indent=1)
     subprocess.run('git checkout -q -- . && git clean -fdq', shell=True, cwd=WT)
